@@ -575,6 +575,38 @@ pub fn assert_recipe(r: &mut Rng, family: Family) -> Recipe {
     }
 }
 
+/// Several `case` nodes with both branches present, all switched by the tag the witness supplies:
+/// executing the program takes one branch of every case, pruning turns every case into an
+/// assertion. case(take(leaf), take(leaf')) : (A + B) x C -> T, stages paired.
+pub fn case_recipe(r: &mut Rng, family: Family) -> Recipe {
+    let mut ops = Vec::new();
+    let k = r.urange(2, 6);
+    for i in 0..k {
+        let word = r.chance(1, 3);
+        let n = r.below(4) as u8;
+        for _side in 0..2 {
+            if word {
+                ops.push(GOp::Unit);
+                ops.push(GOp::Word(n, r.next_u64()));
+                ops.push(GOp::Comp);
+            } else {
+                ops.push(GOp::Unit);
+            }
+            ops.push(GOp::Take);
+        }
+        ops.push(GOp::Case);
+        if i > 0 {
+            ops.push(GOp::Pair);
+        }
+    }
+    Recipe {
+        family,
+        ops,
+        close: Close::Early,
+        wit_seed: r.next_u64(),
+    }
+}
+
 /// Deep-nesting families: one unary combinator repeated `n` times around a leaf.
 pub fn deep_recipe(r: &mut Rng, family: Family, n: u32) -> Recipe {
     let kind = r.below(6);
